@@ -154,6 +154,17 @@ def job_core(payload):
             e = assertion_body(rng, rng.randint(1, 2))
             out["assertion_only_bodies"] = out.get("assertion_only_bodies", 0) + 1
         etxt, e2txt = zast.text(("paren", (), e)) if e[0] in ("alt", "or") else zast.text(e), zast.text(("paren", (), e2))
+        blockname = None
+        k = rng.random()
+        if k < 0.05:
+            # sub-expressions that are empty, or nothing but always-yielding wrappers around nothing
+            etxt = rng.choice(["( )", "[ ( ) ]", "( ) *", "{ }", "?( )", "( ) ?", "( , )", "( ( ) )", "!( !( ) )", "( ) ( )"])
+            out["empty_bodies"] = out.get("empty_bodies", 0) + 1
+        elif k < 0.12 and not bound:
+            # the sub-expression is a LONE name bound to a block: reading it applies the block -- to the sub-expression's copy of the stack
+            blockname = rng.choice(["{ drop 5 }", "{ ( 1 , 2 ) }", "{ !( 1 == 1 ) }", "{ swap }", "{ drop drop 7 }", "{ dup }", "{ 9 }", "{ }"])
+            etxt = rng.choice(["Bk04", "( Bk04 )", "Bk04 ( )"])
+            out["lone_block_names"] = out.get("lone_block_names", 0) + 1
         bound_e = None
         if len(ts) >= 2 and rng.random() < 0.5:
             nb = rng.randint(1, min(2, len(ts) - 1))
@@ -178,6 +189,8 @@ def job_core(payload):
             if bound:
                 out["bound_reads"] = out.get("bound_reads", 0) + 1
                 relations(d, 'let Sq04 := [ 1 , [ 2 ] ] ; let St04 := "ab" ; ( %s ) Sq04 St04' % ptxt, etxt, e2txt, "", bad, out, "core", bound_e)
+            elif blockname is not None:
+                relations(d, "let Bk04 := { %s } ; ( %s )" % (blockname, ptxt), etxt, e2txt, "", bad, out, "core", bound_e)
             else:
                 relations(d, "( %s )" % ptxt, etxt, e2txt, "", bad, out, "core", bound_e)
         except common.DriverCrash as ex:
